@@ -17,7 +17,7 @@ import numpy as np
 from common import *
 
 IMPORTS = ("From Coq Require Import Reals.\nFrom Interval Require Import Tactic.\n"
-           "From CV Require Import Base.Cmp Base.Ext Base.QcLin Model.C08_NUTS Model.C08_TuneR.\nFrom Coq Require Import QArith Qcanon.")
+           "From CV Require Import Base.Cmp Base.Ext Base.QcLin Model.C08_NUTS Model.C08_TuneR.\nFrom Coq Require Import QArith Qcanon List.\nImport ListNotations.")
 RULE = ("scripted transitions: implementation x target family (gauss, two-piece normal, quartic, box with -inf/nan/+inf outside) x "
         "max_depth x step-size class (tiny/mid/huge) x phase (fresh, second transition, after warm-up); dims 1-3, dyadic start/momentum; "
         "distinct = distinct (implementation, target, inputs, script); trivial = transitions whose first leaf already stops the "
@@ -161,14 +161,17 @@ class OutOfUniforms(Exception):
     pass
 
 
-def run_chain(cuqi, impl, spec, eps, md, x0, scripts, warm=0, warm_seed=1):
-    """list of per-transition observations for len(scripts) scripted transitions (after `warm` unscripted warm-up ones)"""
+def run_chain(cuqi, impl, spec, eps, md, x0, scripts, warm=0, warm_seed=1, delta=None, x0_dtype="float64"):
+    """list of per-transition observations for len(scripts) scripted transitions (after `warm` unscripted warm-up ones).
+    delta: opt_acc_rate (None = the samplers' default); x0_dtype: dtype of the initial point handed to the sampler"""
     T = mk_target(cuqi, spec)
     x0 = np.array(x0, dtype=float)
+    x0_in = np.array(x0, dtype=x0_dtype)           # what the sampler is given (the values are representable in that dtype)
+    kw = {} if delta is None else {"opt_acc_rate": delta}
     obs = []
     if impl == "exp":
         from cuqi.experimental.mcmc import NUTS
-        s = NUTS(T, initial_point=x0, max_depth=md, step_size=eps)
+        s = NUTS(T, initial_point=x0_in, max_depth=md, step_size=eps, **kw)
         sched = None
         if warm:
             events, used = [], []
@@ -186,7 +189,7 @@ def run_chain(cuqi, impl, spec, eps, md, x0, scripts, warm=0, warm_seed=1):
             s.tune, s.step = tune, step
             with ScriptedRandom(seed=warm_seed):
                 s.warmup(warm)
-            sched = {"eps0": float(eps), "events": events}
+            sched = {"eps0": float(eps), "events": events, "delta": 0.6 if delta is None else delta}
         rec = Recorder(s)
         for (z, e, us) in scripts:
             sc = Script([(z, e, us)])
@@ -221,7 +224,7 @@ def run_chain(cuqi, impl, spec, eps, md, x0, scripts, warm=0, warm_seed=1):
             obs[0]["sched"] = sched
         return obs
     else:
-        s = cuqi.sampler.NUTS(T, x0=x0, max_depth=md, adapt_step_size=(True if warm else eps))
+        s = cuqi.sampler.NUTS(T, x0=x0_in, max_depth=md, adapt_step_size=(True if warm else eps), **kw)
         s._return_burnin = True
         rec = Recorder(s)
         sc = Script(scripts, first=warm)
@@ -264,7 +267,7 @@ def run_chain(cuqi, impl, spec, eps, md, x0, scripts, warm=0, warm_seed=1):
                 with np.errstate(all="ignore"):
                     hs = [l[2] - 0.5 * float(np.dot(l[1], l[1])) for l in last]
                     alphas.append(sum(leaf_alpha(h, h0) for h in hs) / max(1, len(hs)))
-            obs[0]["dual"] = {"eps0": float(s.epsilon_list[0]), "alphas": alphas, "used": [float(v) for v in s.epsilon_list],
+            obs[0]["dual"] = {"delta": 0.6 if delta is None else delta, "eps0": float(s.epsilon_list[0]), "alphas": alphas, "used": [float(v) for v in s.epsilon_list],
                               "bars": [None if v is None else float(v) for v in s.epsilon_bar_list]}
         return obs
 
@@ -562,6 +565,8 @@ def gen_script(rng, md):
 def gen_start(rng, spec):
     d = dim_of(spec)
     b = spec.get("bound", 1.25)
+    if rng.random() < 0.15:
+        return [float(rng.randint(-1, 1)) if b >= 1 else 0.0 for _ in range(d)]      # integer-valued start (also handed over as an int array)
     x0 = [dy(rng, -min(b, 1.25), min(b, 1.25), 8) for _ in range(d)]
     return x0
 
@@ -645,7 +650,7 @@ def sched_case(o0, impl, spec, md, chain_meta):
                 alphas.append(last_alpha)
                 tunes.append((ev[1], ev[2]))
         if all(a is not None and np.isfinite(a) for a in alphas):
-            ref = dual_averaging(sc["eps0"], alphas)
+            ref = dual_averaging(sc["eps0"], alphas, delta=sc["delta"])
             for k, ((e1, b1), (e2, b2)) in enumerate(zip(tunes, ref), start=1):
                 if not (relclose(e1, e2) and relclose(b1, b2)):
                     fail = ("tune() number %d set (epsilon, epsilon_bar) = (%r, %r); dual averaging from the statistics %s gives (%r, %r)"
@@ -675,9 +680,9 @@ def tune_cases(impl, eps0, alphas, eps_n, bar_prev, bar_n, chain_meta, delta=0.6
     if n == 0 or not all(np.isfinite(v) for v in list(alphas) + [eps_n, bar_prev, bar_n]) or min(eps_n, bar_prev, bar_n) <= 0:
         return out
     tol = lambda v: creal(float(Fraction(1, 10**9) * (1 + abs(frac(v)))))
-    e1 = "(Rabs (da_eps_closed %s %s %d [%s] - %s) <= %s)%%R" % (creal(eps0), creal(delta), n, "; ".join(creal(a) for a in alphas),
+    e1 = "(Rabs (da_eps_closed %s %s %d%%Z [%s] - %s) <= %s)%%R" % (creal(eps0), creal(delta), n, "; ".join(creal(a) for a in alphas),
                                                                  creal(eps_n), tol(eps_n))
-    e2 = "(Rabs (da_bar_step %d %s %s - %s) <= %s)%%R" % (n, creal(eps_n), creal(bar_prev), creal(bar_n), tol(bar_n))
+    e2 = "(Rabs (da_bar_step %d%%Z %s %s - %s) <= %s)%%R" % (n, creal(eps_n), creal(bar_prev), creal(bar_n), tol(bar_n))
     for nm, e in (("epsilon", e1), ("epsilon_bar", e2)):
         meta = dict(chain_meta)
         meta.update({"tune_enclosure": nm, "n": n})
@@ -690,7 +695,7 @@ def dual_case(o0, spec, md, chain_meta, warm):
     du = o0["dual"]
     fail = None
     if all(np.isfinite(a) for a in du["alphas"]):
-        ref = dual_averaging(du["eps0"], du["alphas"])
+        ref = dual_averaging(du["eps0"], du["alphas"], delta=du["delta"])
         # iteration 1 uses FindGoodEpsilon's value, iteration k+1 <= warm+1 the k-th dual-averaging iterate, later ones epsilon_bar
         exp_used = [du["eps0"]] + [e for (e, b) in ref] + [ref[-1][1]] * max(0, len(du["used"]) - warm - 1)
         for k, (u, e) in enumerate(zip(du["used"], exp_used), start=1):
@@ -731,10 +736,19 @@ def gen_chain(ctx, rng, cuqi, state, impl, tk, md, epsc, warm, cases, inners, n_
                 e = float((dd[k_] + (dd[k_ + 1] if k_ + 1 < len(dd) else 1.5 * dd[k_])) / 2)
         scripts.append((zz, e, us))
     wseed = rng.randint(1, 10**6)
+    # optional argument opt_acc_rate (warm-up chains) and the dtype of the initial point handed to the sampler
+    delta = rng.choice([None, 0.8, 0.65]) if warm else None
+    x0_dtype = "float64"
+    if not warm and rng.random() < 0.25:
+        if all(float(v).is_integer() for v in x0):
+            x0_dtype = rng.choice(["int64", "int32"])
+        else:
+            x0_dtype = "float32"          # multiples of 1/8 are exact in binary32
     chain_meta = {"impl": impl, "target": spec, "eps": eps, "max_depth": md, "x0": x0, "warm": warm, "warm_seed": wseed,
+                  "delta": delta, "x0_dtype": x0_dtype,
                   "scripts": [[z, e, us[:40]] for (z, e, us) in scripts]}
     try:
-        obs = run_chain(cuqi, impl, spec, eps, md, x0, scripts, warm=warm, warm_seed=wseed)
+        obs = run_chain(cuqi, impl, spec, eps, md, x0, scripts, warm=warm, warm_seed=wseed, delta=delta, x0_dtype=x0_dtype)
     except OutOfUniforms:
         cases.append(crash_case(impl, spec, md, "warm" if warm else "fresh", chain_meta, "consumed more uniforms than any NUTS transition of this depth can"))
         return
@@ -759,7 +773,7 @@ def gen_chain(ctx, rng, cuqi, state, impl, tk, md, epsc, warm, cases, inners, n_
         du = obs[0]["dual"]
         if len(du["used"]) >= warm + 2 and len(du["bars"]) >= warm + 1 and du["bars"][warm - 1] is not None and du["bars"][warm] is not None:
             # epsilon_bar_list[k-1] is the epsilon_bar in force at iteration k (before its adaptation): bar_{n-1} and bar_n
-            cases.extend(tune_cases("leg", du["eps0"], du["alphas"], du["used"][warm], du["bars"][warm - 1], du["bars"][warm], chain_meta))
+            cases.extend(tune_cases("leg", du["eps0"], du["alphas"], du["used"][warm], du["bars"][warm - 1], du["bars"][warm], chain_meta, delta=du["delta"]))
     if impl == "exp" and warm and "sched" in obs[0]:
         sc = obs[0]["sched"]
         alphas, tunes, last_alpha = [], [], None
@@ -771,7 +785,7 @@ def gen_chain(ctx, rng, cuqi, state, impl, tk, md, epsc, warm, cases, inners, n_
                 tunes.append((ev[1], ev[2]))
         if tunes and all(a is not None for a in alphas):
             bar_prev = tunes[-2][1] if len(tunes) >= 2 else 1.0
-            cases.extend(tune_cases("exp", sc["eps0"], alphas, tunes[-1][0], bar_prev, tunes[-1][1], chain_meta))
+            cases.extend(tune_cases("exp", sc["eps0"], alphas, tunes[-1][0], bar_prev, tunes[-1][1], chain_meta, delta=sc["delta"]))
 
 
 def tie_cases(ctx, rng, cuqi, state, cases):
@@ -839,7 +853,7 @@ def run(ctx):
         for tk in ("gauss", "split"):
             for md in ((0, 1, 2) if ctx.thorough else (0, 1)):
                 for _ in range(ctx.n(3, 10) if md < 2 else 2):
-                    gen_chain(ctx, rng, cuqi, state, impl, tk, md, "mid", rng.choice([3, 5, 10, 12]), cases, inners)
+                    gen_chain(ctx, rng, cuqi, state, impl, tk, md, "mid", rng.choice([3, 5, 10, 12, 20, 25]), cases, inners)
     tie_cases(ctx, rng, cuqi, state, cases)
     # how many of the scripted transitions were decided with all margins (sample)
     small = [t for t in inners if len(t) < 2500]
@@ -1037,7 +1051,8 @@ def replay(ctx, meta):
     if "scripts" not in m:
         return 0
     scripts = [(z, e, us) for (z, e, us) in m["scripts"]]
-    obs = run_chain(cuqi, m["impl"], m["target"], m["eps"], m["max_depth"], m["x0"], scripts, warm=m.get("warm", 0), warm_seed=m.get("warm_seed", 1))
+    obs = run_chain(cuqi, m["impl"], m["target"], m["eps"], m["max_depth"], m["x0"], scripts, warm=m.get("warm", 0), warm_seed=m.get("warm_seed", 1),
+                    delta=m.get("delta"), x0_dtype=m.get("x0_dtype", "float64"))
     j = m.get("transition", 0)
     o = obs[j]
     z, e, us = scripts[j]
